@@ -175,6 +175,11 @@ def gen_layout(rng):
         h["comment"] = rng.choice(["# äöü ß 🐍", "# -*- coding: utf-8 -*-", "# plain comment"])
     if rng.random() < 0.3:
         h["imports"] = "explicit"
+    if rng.random() < 0.15:
+        # a module docstring (and a __future__ import, which may only follow a docstring) above the import block
+        h["top"] = [rng.choice(['"""module docstring ü"""', '"""a docstring\nover two lines\n"""', "'doc'", '"""doc"""  # é'])]
+        if rng.random() < 0.6:
+            h["top"].append("from __future__ import annotations")
     pre = []
     if rng.random() < 0.3:
         pre.append(rng.choice(['UNI = "äß🐍"  # ünï', "X = [1,\n     2]", "def helper(a,b):  return a", "Y = {'a':1}"]))
